@@ -212,6 +212,30 @@ func (c GenCfg) Gen(r *prng.Rand, t string, l int, depth int) *Geom {
 	return m
 }
 
+// Big returns a LineString, MultiPoint or one-ring Polygon of layout l whose
+// coordinate array holds about the given number of float64s (block sizes of
+// chunked or pooled I/O paths: 256, 512, 1024, ... and their neighbours).
+func (c GenCfg) Big(r *prng.Rand, l int) *Geom {
+	st := Stride(l)
+	floats := []int{256, 512, 1024, 2048, 4096}[r.Intn(5)] + []int{-st, 0, 0, st}[r.Intn(4)]
+	n := floats / st
+	cs := make([]Coord, n)
+	for i := range cs {
+		cs[i] = c.coord(r, l)
+	}
+	switch r.Intn(3) {
+	case 0:
+		return &Geom{T: LS, L: l, P: [][][]Coord{{cs}}}
+	case 1:
+		pts := make([][]Coord, n)
+		for i := range pts {
+			pts[i] = []Coord{cs[i]}
+		}
+		return &Geom{T: MPt, L: l, P: [][][]Coord{pts}}
+	}
+	return &Geom{T: Pg, L: l, P: [][][]Coord{{cs, {}}}}
+}
+
 // GenAny draws a geometry of a random allowed type and layout, with an SRID on
 // the outermost geometry when configured.
 func (c GenCfg) GenAny(r *prng.Rand) *Geom {
